@@ -711,6 +711,17 @@ def run(ctx):
     w = build_world(ctx)
     make_classes(w)
 
+    def model(run_fn, case_type, cases, what, rows_):
+        """the model comparison never stops the implementation-level oracle (a translator / proof failure
+        is reported by ctx.prove; a model that cannot run is a broken correspondence)"""
+        try:
+            bad = ctx.model_mismatches(run_fn, case_type, cases, imports="From PV Require Import C41 C17.")
+        except Exception as e:  # noqa
+            ctx.corr_broken.append({"what": "model %s could not be evaluated" % run_fn, "error": repr(e)[-600:]})
+            return
+        for i in bad[:3]:
+            ctx.disagree(what, case=rows_[i][0], impl=rows_[i][2])
+
     # ---- 1. lifecycle ----
     rows = []
     for sc in lifecycle_scripts(ctx):
@@ -730,28 +741,20 @@ def run(ctx):
             rows.append((sc, events, obs))
         if len(ctx.samples) < 2:
             ctx.sample({"script": sc, "client_events": facts["obs"], "server_rx_types": facts["server_rx_types"]})
-    bad = ctx.model_mismatches("run_trace", "(list event)", [(e, o) for _, e, o in rows])
-    for i in bad[:3]:
-        ctx.disagree("client event trace differs from model run", case={"script": rows[i][0], "events": rows[i][1]},
-                     impl=rows[i][2])
 
-    # ---- 2. Transport.connect ----
+    # ---- 2. Transport.connect / 3. SSHClient.connect (oracles run inside) ----
     trows = tconnect_cases(ctx, w)
-    bad = ctx.model_mismatches("run_tconnect", "(option key * (bool * bool * bool) * key)",
-                               [(t, i) for _, t, i in trows], imports="From PV Require Import C41 C17.")
-    for i in bad[:3]:
-        ctx.disagree("Transport.connect differs from model transport_connect", case=trows[i][0], impl=trows[i][2])
-
-    # ---- 3. SSHClient.connect ----
     crows = cconnect_cases(ctx, w)
-    bad = ctx.model_mismatches("run_cconnect",
-                               "(hmap * (state * state) * (Z * Z * Z) * policy * (bool * bool) * key)",
-                               [(t, i) for _, t, i in crows],
-                               imports="From PV Require Import C41 C17.")
-    for i in bad[:3]:
-        ctx.disagree("SSHClient.connect differs from model client_connect", case=crows[i][0], impl=crows[i][2])
     if crows:
         ctx.sample({"sshclient": crows[0][0], "impl": crows[0][2]})
+
+    # ---- model comparisons, after every oracle has run ----
+    model("run_trace", "(list event)", [(e, o) for _, e, o in rows],
+          "client event trace differs from model run", [({"script": r[0], "events": r[1]}, None, r[2]) for r in rows])
+    model("run_tconnect", "(option key * (bool * bool * bool) * key)", [(t, i) for _, t, i in trows],
+          "Transport.connect differs from model transport_connect", trows)
+    model("run_cconnect", "(hmap * (state * state) * (Z * Z * Z) * policy * (bool * bool) * key)",
+          [(t, i) for _, t, i in crows], "SSHClient.connect differs from model client_connect", crows)
     ctx.exhaustive = bool(ctx.thorough)
 
 
